@@ -122,7 +122,7 @@ def run(tier, seed, open_findings):
     for r, (m, ver) in zip(rres, rjobs):
         rp += r['pairs']; ra += r['accepted']
         for w in r['widening']:
-            if f"{ver}|{r['base']}|{w['derived']}" in known and 'C14-model-restriction-widens' in open_findings: rk += 1; continue
+            if (f"{ver}|{r['base']}|{w['derived']}" in known or f"redefine:{ver}|{r['base']}|{w['derived']}|{w['top']}" in known) and 'C14-model-restriction-widens' in open_findings: rk += 1; continue
             rf.append(dict(case=dict(redefine=True, base=m, derived=w['der_model'], version=ver, top=w['top']),
                            observed=f"group {r['base']} redefined (without self-reference) as {w['derived']} is accepted through {w['top']} although the redefinition admits {w['word']!r}",
                            required='a redefinition of a group that does not refer to itself is accepted only if it is a restriction, at every level of a chain of redefinitions'))
